@@ -7,6 +7,7 @@ package main
 
 import (
 	"os"
+	"os/exec"
 	"path/filepath"
 	"regexp"
 	"strings"
@@ -74,6 +75,53 @@ var cases = []tcase{
 	{"struct copy WITHOUT re-clipping", []edit{
 		{"json_handler.go", "\treturn &JsonHandler{\n\t\tOptions:      h.Options,\n\t\toutMu:        h.outMu,\n\t\tout:          h.out,\n\t\tpreformatted: slices.Clip(h.preformatted),\n\t\tnOpenGroups:  h.nOpenGroups,\n\t\taddSep:       h.addSep,\n\t}",
 			"\th2 := *h\n\treturn &h2"}}, nil, "chain", "json:0"},
+}
+
+// TestHarmlessBattery: behaviour-preserving rewrites (testdata/harmless_<k>.diff, from the integrator's battery) must be
+// RECOGNISED with every fact true: renames (roles by type), pool/constant renames + named New + comma-ok Get + early return,
+// NewOptions via new(Options) + assignments, positive / local-variable gate, shared *sink, locked write in an own helper.
+func TestHarmlessBattery(t *testing.T) {
+	diffs, _ := filepath.Glob("testdata/harmless_*.diff")
+	if len(diffs) == 0 {
+		t.Skip("no testdata")
+	}
+	for _, d := range diffs {
+		d := d
+		t.Run(filepath.Base(d), func(t *testing.T) {
+			tmp := t.TempDir()
+			dst := filepath.Join(tmp, "logger")
+			os.MkdirAll(dst, 0o755)
+			ents, err := os.ReadDir(filepath.Join(repoDir(), "logger"))
+			if err != nil {
+				t.Skip(err)
+			}
+			for _, e := range ents {
+				if strings.HasSuffix(e.Name(), ".go") && !strings.HasSuffix(e.Name(), "_test.go") {
+					b, _ := os.ReadFile(filepath.Join(repoDir(), "logger", e.Name()))
+					os.WriteFile(filepath.Join(dst, e.Name()), b, 0o644)
+				}
+			}
+			abs, _ := filepath.Abs(d)
+			cmd := exec.Command("patch", "-p1", "-s", "-i", abs)
+			cmd.Dir = tmp
+			if out, err := cmd.CombinedOutput(); err != nil {
+				t.Skipf("diff does not apply to the current source: %s", out)
+			}
+			for _, mode := range []string{"chain", "conc"} {
+				out, notes, un := analyse(tmp, mode)
+				if len(un) > 0 {
+					t.Fatalf("%s: harmless rewrite refused: %v", mode, un)
+				}
+				for _, m := range reDef.FindAllStringSubmatch(out, -1) {
+					for i, v := range strings.Fields(m[2]) {
+						if v != "true" && !(mode == "chain" && i == 3) {
+							t.Fatalf("%s: %s fact %d is %s (notes %v)", mode, m[1], i, v, notes)
+						}
+					}
+				}
+			}
+		})
+	}
 }
 
 func repoDir() string {
